@@ -206,4 +206,14 @@ MUTATIONS = {
         old="                    except (KeyboardInterrupt, Exception):\n                        self._handle_interrupted_draw()\n                        raise",
         new="                    except KeyboardInterrupt:\n                        self._handle_interrupted_draw()\n                    except Exception:\n                        self._handle_interrupted_draw()\n                        raise",
     ),
+    "c06-old-flush-dropped": dict(
+        file="image/common.py", props=["C06"],
+        old='                print("\\r", cursor_up, frame, sep="", end="", flush=True)',
+        new='                print("\\r", cursor_up, frame, sep="", end="")',
+    ),
+    "c06-old-cache-rerenders": dict(
+        file="image/common.py", props=["C06", "C11"],
+        old="                    if hash(image.rendered_size) != size_hash:",
+        new="                    if n == 0 or hash(image.rendered_size) != size_hash:",
+    ),
 }
